@@ -28,6 +28,32 @@ def load_known():
         return json.load(f).get("findings", [])
 
 
+def audit_external(prog):
+    """summary audit: external callees of the crate that no table of the analyser classifies
+    (pass-through, lock, channel, pool, thread, collection, atomic, formatting); values flowing
+    through them are treated as opaque (never guessed)"""
+    from mirq import prov, anchors, locks
+    from rules import subs
+    known = set(prov.IDENT0) | set(prov.UNWRAP_OK) | set(prov.UNWRAP_SOME) | set(prov.CLONE) | set(prov.TAKE) | set(prov.WRAP) | set(prov.MAPERR) | set(prov.MAPOK) | set(prov.RESOK) | set(prov.UNWRAP_OR) | set(prov.LOCKS) | set(prov.TRYBRANCH) | set(prov.FROMRESIDUAL)
+    known |= anchors.CB_DEQUEUE | anchors.CB_SEND | anchors.CB_CTORS | anchors.POOL_EXEC | anchors.POOL_JOIN | anchors.THREAD_SPAWN | anchors.THREAD_JOIN
+    out = set()
+    for s in prog.sites():
+        if s.fn is None or s.fn.get("krate") == prog.facts.crate:
+            continue
+        ck = s.ck
+        if ck in known:
+            continue
+        last = ck.split("::")[-1]
+        if ck.startswith("std::vec::Vec::") and (last in subs.READERS or last in subs.APPENDERS or last in subs.REMOVERS or last in subs.REORDERERS):
+            continue
+        if ck.startswith("std::sync::atomic::") or ck.startswith("core::fmt::") or ck.startswith("std::fmt::") or ck.startswith("std::time::") or ck.startswith("std::string::") or ck.startswith("std::io::_eprint"):
+            continue
+        if "fmt::" in s.body.path:
+            continue
+        out.add(ck)
+    return sorted(out)
+
+
 def run_pack(pid, facts_path):
     ctx = Ctx(facts_path)
     rep = Report(pid)
@@ -94,6 +120,23 @@ def run(pid, tier, seed, fact_files, repo, t0, explain=None):
         except Exception as e:
             tb = traceback.format_exc().strip().splitlines()
             rep.bad(name, "control-crashed", "", "positive control could not be evaluated: %s: %s | %s" % (type(e).__name__, e, " / ".join(tb[-3:])))
+
+    if explain:
+        try:
+            want = json.load(open(explain)).get("key")
+        except Exception as e:
+            print("cannot read %s: %s" % (explain, e))
+            return 2
+        hits = [i for i in rep.items if i.key == want]
+        print("explain %s: rule %s: %s" % (want, want.split(":")[0], props.rule_text(want.split(":")[0])))
+        for i in hits:
+            print("  %s  %s  %s" % ("holds   " if i.ok else "VIOLATED", i.where or "-", i.detail))
+        if not hits:
+            print("  no instance with this key on the current tree (the construct no longer exists)")
+        still = [i for i in hits if not i.ok]
+        if still:
+            print("VIOLATION property=%s replay=%s" % (pid, explain))
+        return 1 if still else 0
 
     known = [k for k in load_known() if k.get("property") == pid]
     known_keys = {k["key"]: k for k in known if k.get("status") == "known"}
@@ -167,6 +210,7 @@ def run(pid, tier, seed, fact_files, repo, t0, explain=None):
             "trusted_base": TRUSTED,
             "not_decided": spec.get("not_decided", []),
             "known_findings_matched": n_known,
+            "external_callees_not_in_any_table": audit_external(prog),
             "selftest": rep.stats.get("selftest"),
         },
         "assumptions": TRUSTED + spec.get("assumptions", []),
